@@ -526,13 +526,20 @@ func genC19(seed uint64, thorough bool) *c19Case {
 	used := map[int]bool{}
 	for i := 0; i < nmap; i++ {
 		src := r.Intn(width)
-		for used[src] {
+		shareSrc := r.Chance(0.15) // the same CSV column may feed two destination columns
+		for used[src] && !shareSrc {
 			src = (src + 1) % width
+		}
+		if used[src] {
+			// the field generator follows the type of the first destination; the
+			// reference handles whatever text arrives
 		}
 		used[src] = true
 		c.DstCols = append(c.DstCols, c.Cols[perm[i]].Name)
 		c.SrcCols = append(c.SrcCols, src)
-		fieldType[src] = c.Cols[perm[i]].Type
+		if fieldType[src] == core.TVarchar || r.Chance(0.5) {
+			fieldType[src] = c.Cols[perm[i]].Type
+		}
 	}
 	nrec := r.Range(1, 40)
 	if thorough {
